@@ -551,20 +551,13 @@ void hx_gen(Rng &rng, const std::string &tier)
             stat("gen_exception");
         }
     }
-    // unevaluated Derivative / Subs as *inputs*: higher derivatives of expressions with function symbols
+    // unevaluated Derivative / Subs as *inputs* (built structurally, see c10_gen.h)
     for (int i = 0; i < 60 * scale; i++) {
         try {
-            B e0 = gexpr(g, 2, K_FSYM | K_ELEM);
-            RCP<const Symbol> x = symbol(g.r.coin(3, 4) ? "x" : "y");
-            B e1 = e0->diff(x);
+            B e1 = binder_expr(g, K_FSYM | K_ELEM);
             if (!has_kind(*e1, is_binder))
                 continue;
-            emit_diff(g, e1, g.r.coin(3, 4) ? "x" : "y", "binder-2nd");
-            if (g.r.coin(1, 3)) {
-                B e2 = e1->diff(x);
-                if (vsexp::dump(e2).size() < 900)
-                    emit_diff(g, e2, g.r.coin(3, 4) ? "x" : "y", "binder-3rd");
-            }
+            emit_diff(g, e1, g.r.coin(3, 4) ? "x" : "y", "binder");
         } catch (const std::exception &) {
             stat("gen_exception");
         }
